@@ -292,6 +292,53 @@ let flw_oracle (prop : string) (case_toks : string list) (obs : string list) : s
      | _ -> "skip unknown-property")
   | _, _ -> "skip shape"
 
+(* ---- C12: replay of the observed order of schedule points through the interleaving model ---- *)
+let conc_oracle (case_toks : string list) (obs : string) : string =
+  (* case: <spec0> <probes> ; <calls|calls> ; <schedule>      obs: ev[t:name,...] g<n> x<bits> *)
+  let parts =
+    let rec go cur acc = function
+      | [] -> List.rev (List.rev cur :: acc)
+      | ";" :: r -> go [] (List.rev cur :: acc) r
+      | x :: r -> go (x :: cur) acc r in
+    go [] [] case_toks in
+  match parts with
+  | [spec0; probes] :: [calls] :: _ ->
+    let probes = List.map ustr_of_hex (split_on ',' probes) in
+    let threads = List.map (fun t -> if t = "-" then [] else List.map ustr_of_hex (split_on ',' t)) (split_on '|' calls) in
+    (* specification ids: 0 = the initial one, then the calls in order of appearance *)
+    let table = ref [ (0, spec_of_string (ustr_of_hex spec0)) ] in
+    let next = ref 1 in
+    let ids = List.map (fun cs -> List.map (fun c -> let i = !next in incr next; table := (i, spec_of_string c) :: !table; i) cs) threads in
+    let spec_of i = List.assoc i !table in
+    let ml i = max_level (spec_of (int_of_nat i)).sp_filters in
+    let grid_of i = String.concat "" (List.concat_map (fun t -> List.map (fun l ->
+        if enabled (spec_of i).sp_filters (nat_of_int l) t then "1" else "0") [1;2;3;4;5]) probes) in
+    (match split_on ' ' obs with
+     | [ev; g; x] when String.length ev > 3 ->
+       let inner = String.sub ev 3 (String.length ev - 4) in
+       let evs = if inner = "" then [] else List.map (fun e ->
+           match split_on ':' e with
+           | [t; "enter"] -> EvEnter (nat_of_int (int_of_string t))
+           | [t; "updated"] -> EvUpdated (nat_of_int (int_of_string t))
+           | [t; "done"] -> EvDone (nat_of_int (int_of_string t))
+           | _ -> failwith "event") (split_on ',' inner) in
+       let gate = int_of_string (String.sub g 1 (String.length g - 1)) in
+       let grid = String.sub x 1 (String.length x - 1) in
+       (* the property, on the implementation's final state *)
+       let candidates = List.filter (fun (i, _) -> grid_of i = grid) !table in
+       if candidates = [] then "fail filtering-follows-none-of-the-submitted-specifications" else
+       if List.for_all (fun (i, _) -> gate < int_of_nat (ml (nat_of_int i))) candidates then
+         Printf.sprintf "fail gate-%d-hides-records-of-the-active-specification" gate else
+       (* the correspondence: the model, driven by the observed order, ends in the same state *)
+       let sys0 = cinit ml O code_fixed O (List.map (List.map nat_of_int) ids) in
+       let final = crun ml O sys0 (schedule_of true evs) in
+       if not (done_b final) then "mismatch the-observed-order-does-not-complete-the-model-run" else
+       if grid_of (int_of_nat final.cspec) <> grid then "mismatch active-specification" else
+       if int_of_nat final.cgate <> gate then Printf.sprintf "mismatch gate model=%d impl=%d" (int_of_nat final.cgate) gate
+       else "pass"
+     | _ -> "fail observation-shape")
+  | _ -> "skip shape"
+
 let run_line (prop : string) (line : string) : string =
   let marker = " @@ " in
   let rec find i = if i + 4 > String.length line then -1 else if String.sub line i 4 = marker then i else find (i + 1) in
@@ -300,5 +347,6 @@ let run_line (prop : string) (line : string) : string =
   let case = String.sub line 0 k and obs = String.sub line (k + 4) (String.length line - k - 4) in
   match split_on ' ' case with
   | _ :: "flw" :: rest -> flw_oracle prop rest (List.filter (fun s -> s <> "") (split_on ' ' obs))
+  | _ :: "conc" :: rest -> conc_oracle rest obs
   | _ :: "tryfrom" :: _ -> if obs = "p0 rt1 b1 w1" then "pass" else "fail path-derived-spec-does-not-denote-the-path " ^ obs
   | _ -> "skip kind"
